@@ -1,5 +1,5 @@
 (* Lemmas about the hand model of the backend request server (Model.BeServer). *)
-From VV Require Import Base.Bits Base.Rt Base.Val Gen.GenConsts Gen.GenLayout Gen.GenFns Gen.GenVrfd Model.Transport Model.BeServer.
+From VV Require Import Base.Bits Base.Rt Base.Val Gen.GenConsts Gen.GenLayout Gen.GenFns Gen.GenVrfd Gen.GenBeAck Model.Transport Model.BeServer.
 From Coq Require Import ZArith ZifyBool ZifyN Permutation.
 Open Scope string_scope.
 Open Scope list_scope.
@@ -24,6 +24,15 @@ Lemma flag_inv_init : flag_inv be_init.
 Proof. reflexivity. Qed.
 Lemma flag_inv_update s : flag_inv (update_reply_ack s).
 Proof. reflexivity. Qed.
+(* the flag rule REGENERATED from update_reply_ack_flag is the specification's: PROTOCOL_FEATURES offered by the device and
+   REPLY_ACK acknowledged *)
+Lemma ra_enabled_spec vf apf :
+  ra_enabled vf apf = has vf VhostUserVirtioFeatures_PROTOCOL_FEATURES && has apf VhostUserProtocolFeatures_REPLY_ACK.
+Proof. reflexivity. Qed.
+Lemma ack_written_spec ra nr : ack_written ra nr = ra && nr.
+Proof. reflexivity. Qed.
+Lemma ack_value_spec ok : (ack_value ok =? 0) = ok.
+Proof. destruct ok; reflexivity. Qed.
 
 Lemma dispatch_flag_inv cfg s o h files size buf :
   flag_inv s -> flag_inv (fst (dispatch cfg s o h files size buf)).
@@ -93,7 +102,7 @@ Proof. reflexivity. Qed.
 
 Lemma ack_sent_ok s h res c d dr : sent_ok h (ack s h res c d dr).
 Proof.
-  unfold ack, sent_ok. cbn [o_sent].
+  unfold ack, sent_ok, ack_written. cbn [o_sent].
   destruct (be_reply_ack s && VhostUserMsgHeader_is_need_reply R h); [|split; [simpl; lia|constructor]].
   destruct (reply_hdr h (sizeof VhostUserU64_layout) 0) eqn:E; [|split; [simpl; lia|constructor]].
   split; [simpl; lia|]. constructor; [|constructor].
@@ -444,7 +453,7 @@ Lemma ack_rule s h res c d dr :
   /\ (forall t, In t (o_sent (ack s h res c d dr)) ->
         exists rh, fst t = VhostUserMsgHeader_write rh ++ u64_body (match res with ROk _ => 0 | RErr _ => 1 end)).
 Proof.
-  intros Hv. unfold ack. cbn [o_sent].
+  intros Hv. unfold ack, ack_written, ack_value. cbn [o_sent].
   assert (Hrh : exists rh, reply_hdr h (sizeof VhostUserU64_layout) 0 = ROk rh).
   { unfold reply_hdr. change (sizeof VhostUserU64_layout) with 8. change MAX_MSG_SIZE with 4096.
     cbn [orb N.ltb]. unfold VhostUserMsgHeader_is_valid in Hv.
@@ -454,6 +463,17 @@ Proof.
     eexists. reflexivity. }
   destruct Hrh as [rh Hrh]. rewrite Hrh.
   destruct (be_reply_ack s && VhostUserMsgHeader_is_need_reply R h).
-  - split; [split; [reflexivity|discriminate]|]. intros t [<-|[]]. exists rh. reflexivity.
+  - split; [split; [reflexivity|discriminate]|]. intros t [<-|[]]. exists rh. destruct res; reflexivity.
   - split; [split; [intros H; contradiction|discriminate]|]. intros t [].
 Qed.
+Definition ack_shape_ok : bool :=
+  match ack_shape with
+  | [a; b; c; d] =>
+      String.eqb a "let hdr = self . new_reply_header :: < VhostUserU64 > (req , 0) ? ;"
+      && String.eqb b "let msg = VhostUserU64 :: new (val) ;"
+      && String.eqb c "self . main_sock . send_message (& hdr , & msg , None) ? ;"
+      && String.eqb d "after: res"
+  | _ => false
+  end.
+Lemma ack_shape_ok_true : ack_shape_ok = true.
+Proof. vm_compute. reflexivity. Qed.
